@@ -222,3 +222,97 @@ func init() {
 		check: c03Check,
 	})
 }
+
+// c03close: committers race DB.Close.  A commit that returned nil must be completely visible
+// after re-opening; a commit that returned an error (writes blocked / DB closed) must have left
+// no trace at all: never a part of a transaction.
+func init() {
+	type closeState struct {
+		results map[string]error // commit name -> Commit result
+		closeErr error
+	}
+	registerSched(&schedScenario{
+		name:   "c03close",
+		points: []string{"op", "commit.ts", "send.enqueue", "write.lsm", "commit.applied"},
+		setup: func(x *schedExec) {
+			o := smallOpts(x.dir)
+			x.db = mustOpen(o)
+			x.state = &closeState{results: map[string]error{}}
+		},
+		teardown: func(x *schedExec) {
+			if x.db != nil {
+				_ = x.db.Close()
+			}
+		},
+		threads: func(x *schedExec) []sched.Thread {
+			st := x.state.(*closeState)
+			var mu gosyncMutex
+			committer := func(name string, n int) sched.Thread {
+				return sched.Thread{Name: name, Body: func() {
+					for i := 0; i < n; i++ {
+						x.s.Point("op")
+						tag := fmt.Sprintf("%s%d", name, i)
+						err := func() (err error) {
+							defer func() {
+								if r := recover(); r != nil {
+									err = fmt.Errorf("panic: %v", r)
+								}
+							}()
+							return x.db.Update(func(txn *Txn) error {
+								if err := txn.Set([]byte(tag+"-1"), []byte(tag)); err != nil {
+									return err
+								}
+								return txn.Set([]byte(tag+"-2"), []byte(tag))
+							})
+						}()
+						mu.Lock()
+						st.results[tag] = err
+						mu.Unlock()
+					}
+				}}
+			}
+			return []sched.Thread{committer("A", 2), committer("B", 2), {Name: "Close", Body: func() {
+				x.s.Point("op")
+				st.closeErr = x.db.Close()
+			}}}
+		},
+		check: func(x *schedExec) (string, string, string) {
+			st := x.state.(*closeState)
+			if st.closeErr != nil {
+				return "", "Close: " + st.closeErr.Error(), "close-error"
+			}
+			opt := x.db.opt
+			db, err := Open(opt)
+			if err != nil {
+				x.db = nil
+				return "", "re-open after Close: " + err.Error(), "reopen-failed"
+			}
+			x.db = db
+			txn := db.NewTransaction(false)
+			defer txn.Discard()
+			var out []string
+			for _, tag := range []string{"A0", "A1", "B0", "B1"} {
+				err, ran := st.results[tag]
+				v1, v2 := getStr(txn, tag+"-1"), getStr(txn, tag+"-2")
+				switch {
+				case !ran:
+					return "", "commit " + tag + " never returned", "unfinished"
+				case err == nil && (v1 != tag || v2 != tag):
+					return "", fmt.Sprintf("commit %s returned nil before Close, after re-open its keys read %q and %q", tag, v1, v2), "acked-commit-lost"
+				case err != nil && strings.HasPrefix(err.Error(), "panic"):
+					return "", fmt.Sprintf("commit %s: %v", tag, err), "panic/commit-during-close"
+				case err != nil && (v1 != "<nil>" || v2 != "<nil>"):
+					return "", fmt.Sprintf("commit %s failed with %v but after re-open its keys read %q and %q", tag, err, v1, v2), "failed-commit-visible"
+				}
+				if err == nil {
+					out = append(out, tag+"=ok")
+				} else {
+					out = append(out, tag+"=rejected")
+				}
+			}
+			return strings.Join(out, " "), "", ""
+		},
+	})
+}
+
+type gosyncMutex = sync.Mutex
